@@ -127,7 +127,7 @@ class Splitter:
                 raise BlockAbortedException(
                     abort_reason=f"Unexpected block start: `{m.group(0)}`. "
                     f"Was still looking for closing bracket",
-                    end_index=m.start() - 1,
+                    end_index=m.start(),
                 )
 
     def _move_to_comma_or_closing_curly_bracket(
@@ -183,7 +183,7 @@ class Splitter:
                 raise BlockAbortedException(
                     abort_reason=f"Unexpected block start: `{next_mark.group(0)}`. "
                     f"Was still looking for field-value closing {looking_for} ",
-                    end_index=next_mark.start() - 1,
+                    end_index=next_mark.start(),
                 )
 
     def _move_to_end_of_entry(self, first_key_start: int) -> Tuple[List[Field], int, Set[str]]:
@@ -301,6 +301,9 @@ class Splitter:
                             error=e,
                         )
                     )
+                    # Resume right after the failed block's raw text, so that no character is lost
+                    self._reset_block_status(current_char_index=e.end_index)
+                    continue
 
                 except ParserStateException as e:
                     # This is a bug in the parser, not in the bibtex. We should not continue.
@@ -374,7 +377,7 @@ class Splitter:
             self._unaccepted_mark = comma_mark
             raise BlockAbortedException(
                 abort_reason=f"Expected comma after entry key, but found {comma_mark.group(0)}",
-                end_index=comma_mark.end(),
+                end_index=comma_mark.start(),
             )
         else:
             self._open_brackets += 1
@@ -414,7 +417,7 @@ class Splitter:
             raise BlockAbortedException(
                 abort_reason="Expected equals sign after field key,"
                 f" but found {equals_mark.group(0)}",
-                end_index=equals_mark.end(),
+                end_index=equals_mark.start(),
             )
         key = self.bibstr[m.end() + 1 : equals_mark.start()].strip()
         value_start = equals_mark.end()
